@@ -96,14 +96,20 @@ def run_case(ctx, rng):
     curs_per_col = [CURS[:rng.range(1, 4)] for _ in kinds]
     nrows = rng.range(0, 7)
     rows = [tuple(gen_cell(rng, k, cs) for k, cs in zip(kinds, curs_per_col)) for _ in range(nrows)]
-    desc = [beanquery.Column('c%d' % j, KIND_TYPES[k]) for j, k in enumerate(kinds)]
+    names_in = ['c%d' % j for j in range(ncols)]
+    for j in range(1, ncols):
+        same = [i for i in range(j) if kinds[i] == kinds[j]]
+        if same and rng.chance(1, 5):
+            names_in[j] = names_in[rng.choice(same)]      # two columns with the same name and datatype are still two columns
+    duplicate_names = len(set(names_in)) != len(names_in)
+    desc = [beanquery.Column(names_in[j], KIND_TYPES[k]) for j, k in enumerate(kinds)]
     use_fmt = rng.chance(1, 2)
     dformat, digits = make_formatter(rng) if use_fmt else (None, None)
     if use_fmt:
         quant = '(quant ' + ' '.join('(%s %s)' % (proto.q(c), digits[c]) for c in digits) + ')'
     else:
         quant = '(quant nil)'
-    cols = ' '.join('(%s %s)' % (proto.q('c%d' % j), k if k in ('amount', 'position', 'inventory') else 'plain') for j, k in enumerate(kinds))
+    cols = ' '.join('(%s %s)' % (proto.q(names_in[j]), k if k in ('amount', 'position', 'inventory') else 'plain') for j, k in enumerate(kinds))
     line = '(numberify (cols %s) %s (rows %s))' % (cols, quant, ' '.join('(' + ' '.join(enc_cell(k, v) for k, v in zip(kinds, r)) + ')' for r in rows))
 
     def impl():
@@ -122,6 +128,8 @@ def run_case(ctx, rng):
     except Exception as exc:  # noqa: BLE001
         ctx.record_violation('numberify-raises-%s' % type(exc).__name__, repr(exc), payload={'kinds': kinds, 'rows': rows})
         return
+    if duplicate_names:
+        return      # the oracle below identifies columns by name; the model comparison above covers this table
     problems = []
     if len(orows) != len(rows):
         problems.append('row count changed')
